@@ -151,7 +151,11 @@ pub fn run_world(
     configure_gen: Option<&dyn Fn(&mut Gen)>,
 ) -> RunOutput {
     let dir = fresh_dir();
+    let cap = cfg.guards.contains("capture_logs") || std::env::var("MDK_SIM_CAPTURE").is_ok();
+    let _log_guard = if cap { Some(crate::logcap::install()) } else { None };
     let mut w = World::new(cfg.seed, dir.clone());
+    w.capture_logs = cap;
+    let _ = crate::logcap::drain();
     let mut harness_error = None;
     for nc in &cfg.nodes {
         if let Err(e) = w.add_node(nc.clone()) {
